@@ -4,14 +4,25 @@ One case = controller parameters (keep_last_and_best_only, the two file-name for
 constant, or formatted from a metric —, best_is_train, optionally early-stopping / reduce-lr
 parameters, a user entry, explicit epoch= argument), a metric history and a crash schedule
 [[epoch, k, torn(, soft)], ...]: session i is a NEW controller on the files left behind, loads the
-last recorded epoch, trains on and is killed at mutating call k of the update for `epoch` (c16_fs:
-counting proxies for training.os / tempfile / open / torch put in place from outside the library;
-every write of a line of the history file is a mutating call of its own). A last session runs to the
-end and one more controller reads what it left.
+last recorded epoch, trains on and is killed at file-system MUTATION number k of the update for `epoch`
+(c16_fs: every route to the file system — builtins.open / io.open / os.open + os.fdopen / os.write,
+tempfile.NamedTemporaryFile and mkstemp, torch.save to a path or a file object, os.replace / rename,
+os.remove / unlink, os.mkdir, shutil, pathlib — is intercepted where it ends, on the owning modules;
+file objects are proxied with full delegation; every line written to the history file is a mutation
+of its own; torch.save into a BytesIO is none). A last session runs to the end and one more controller
+reads what it left. How many mutations an update makes, in which order it runs the two temp-file
+pipelines of the save, through which API: the implementation's business — crash points are enumerated
+from the uninterrupted run of the implementation under test.
 
-Correspondence: per session the executed mutating calls of the killed update, the directory and
-history file left behind, what a new controller reads and loads; per completed update its call
-trace and the disk after it — against the Lean model (Model/Checkpoint.lean, repaired variant).
+Correspondence, on STATES: per session the directory and history file left behind, what a new
+controller reads and loads; per completed update the disk after it — against the Lean model
+(Model/Checkpoint.lean, repaired variant). The model is told which effective file-system changes
+(c16_run.abstract_trace: "a temp file appears", "it has its content", "it is renamed onto the model
+checkpoint of epoch 2", "a line is appended to the history", "a checkpoint is removed"; no-op calls
+dropped) the killed update made, in the implementation's order, and MATCHES them against the orders it
+admits (any interleaving of the two pipelines, then the history lines, then the clean-up in any
+order — `crashMatch`, proved to accept only sequences that leave a recoverable disk:
+C16_crashMatch_rec); what is not admitted is a disagreement (`trace_ok`).
 Property (on the implementation alone): after every crash a new controller reads a prefix of the
 uninterrupted history, loads exactly the states saved for the last and the best recorded epoch —
 the FULL state: every entry of the model's state dict, every hyper-parameter of every parameter
@@ -176,23 +187,32 @@ class C16(PropertyCheck):
             "inside one cell of the recorded grid in descending / ascending order (ties that exist only in the "
             "recorded history), raw near-ties on both sides of a cell boundary (one grid point apart as recorded), "
             "mantissas at the ends of a decade; `best` and exactness are judged on the history AS RECORDED) "
-            "x keep_last_and_best_only x 7 file-name "
-            "format pairs (with {epoch}, constant, formatted from a metric) x best_is_train x variants "
+            "x keep_last_and_best_only x 8 file-name "
+            "format pairs (with {epoch}, constant, formatted from a metric, with a directory part) x best_is_train x variants "
             "(early-stopping + reduce-lr parameters active, a user entry, explicit epoch= argument; reduce-lr alone "
             "with 1..4 reductions of the optimizer's learning rate in one run, the rate taken from the parameters "
             "or from the optimizer's defaults, reduction epochs that are / are not the best epoch) x optimizer "
             "(SGD with momentum + weight decay, Adam; two parameter groups; genuine steps every epoch) x crash "
-            "schedules: none; EVERY mutating call k of EVERY update as single crash point - open(csv), the "
-            "write of the header line and the write of the data row are three separate calls -, torn "
-            "torch.save and torn data row, hard kills (later mutations suppressed) and soft interrupts "
-            "(unwinding handlers run); second crashes (quick: in the next two updates after recovery, "
-            "thorough: everywhere); after the schedule the run is continued to the end and one more "
-            "controller reads the result. non-trivial: a crash fired after >= 1 executed mutating call; "
-            "distinct by the case")
+            "schedules: none; EVERY file-system mutation k of EVERY update as single crash point (enumerated from "
+            "the uninterrupted run of the implementation under test: creation of a file, every write of bytes to "
+            "a file, rename, removal, mkdir, opening a file for writing - whichever Python API makes it; the "
+            "creation of the history file, its header line and its data row are three separate points), torn "
+            "writes of a state dict and torn data row, hard kills (later mutations suppressed) and soft "
+            "interrupts (unwinding handlers run); second crashes (quick: in the next two updates after "
+            "recovery, thorough: everywhere); after the schedule the run is continued to the end and one more "
+            "controller reads the result. + a format pair with a directory part of its own per file. "
+            "non-trivial: a crash fired after >= 1 executed file-system event; distinct by the case")
     assumptions = [
-        "a crash is simulated in-process: BaseException at mutating call k; hard: every later mutating call "
-        "suppressed, soft: the library's unwinding code runs. Every write() on the history file object is "
-        "one mutating call that reaches the disk at once (what the `with` block flushes on an interrupt)",
+        "a crash is simulated in-process: BaseException at file-system mutation k (intercepted on builtins / io / "
+        "os / torch, i.e. below tempfile, shutil, pathlib, os.fdopen; file objects proxied with full delegation); "
+        "hard: every later mutation suppressed, soft: the library's unwinding code runs (the model admits the "
+        "removal of the killed update's temp files there, nothing else). Bytes written to a file reach it at "
+        "once (write-through); the history file is line-buffered: a line reaches it when it is complete, however "
+        "many write() calls it took (what the `with` block flushes on an interrupt between two lines)",
+        "the correspondence is on states: the implementation's effective file-system changes are matched against "
+        "the orders the Lean model admits (any interleaving of the two temp-file pipelines of the save, history "
+        "lines, clean-up in any order; no-op calls - makedirs, open of an existing file, removal of a missing "
+        "file, chmod - dropped), C16_crashMatch_rec; an order outside that set is reported as a disagreement",
         "a history line reaches the file whole or not at all (the torn data row is exercised, predicted by "
         "the model and reported as known finding C16.history.torn_row; a torn header line is not modelled)",
         "os.replace is atomic; torch.save/torch.load round-trip a state dict; tempfile names are fresh and "
